@@ -18,7 +18,8 @@ RULE = ("A history (2-20 operations, one shrinkable list) over {train(), eval(),
         "and moves the running statistics by r <- (1-m) r + m stat (variance convention read off the first update and then "
         "held), eval forward uses running statistics and changes nothing, inverse raises InverseNotAvailable in training and "
         "is the exact inverse of eval forward in eval. Outputs, log-dets and state_dict are compared after EVERY step "
-        "(1e-9). Non-trivial: a training forward followed later by a mode switch or save/load and another call.")
+        "(1e-9). Each forward/inverse runs with autograd on or inside torch.no_grad(); batch scales 3 .. 1e-5 (float64), offsets up to -1000. "
+        "Non-trivial: a training forward followed later by a mode switch or save/load and another call.")
 ASSUMPTIONS = ["training-mode batches have >= 2 rows with non-constant columns", "no optimiser step is generated (parameters "
                "only change through the documented initialisation / running-statistics rule)"]
 EXPLANATION = "generated histories"
@@ -35,8 +36,9 @@ def _op(draw):
     if k in ("forward", "inverse"):
         op["seed"] = draw(st.integers(0, 1000))
         op["rows"] = draw(st.sampled_from([1, 2, 3, 4, 6]))    # 1 row: legal for 4-D ActNorm batches (statistics over H*W pixels)
-        op["scale"] = draw(st.sampled_from([1.0, 3.0, 0.2]))
-        op["shift"] = draw(st.sampled_from([0.0, 2.0, -5.0, 300.0, -1000.0]))
+        op["scale"] = draw(st.sampled_from([1.0, 3.0, 0.2, 1e-3, 1e-4, 1e-5]))     # tiny natural scales: float64 cases only (see _batch)
+        op["shift"] = draw(st.sampled_from([0.0, 2.0, -5.0, 300.0, -1000.0])) if op["scale"] >= 0.2 else draw(st.sampled_from([0.0, 2.0]))
+        op["nograd"] = draw(st.booleans())      # inside torch.no_grad(), as when sampling / evaluating
     return op
 
 
@@ -65,7 +67,8 @@ def _batch(case, op):
     if rows < 2 and not case.get("img"):
         rows = 2            # a single 2-D row has no variance: outside the documented domain
     shape = [rows, f] + (case["hw"] if case.get("img") else [])
-    x = torch.randn(shape, generator=g, dtype=torch.float64) * op["scale"] + op["shift"] + torch.arange(f, dtype=torch.float64).reshape([1, f] + [1] * (len(shape) - 2))
+    scale = op["scale"] if case.get("precise", True) else max(op["scale"], 0.2)     # |x|/std ~ 1e5 is not a float32 question
+    x = torch.randn(shape, generator=g, dtype=torch.float64) * scale + op["shift"] + torch.arange(f, dtype=torch.float64).reshape([1, f] + [1] * (len(shape) - 2))
     return x
 
 
@@ -81,7 +84,7 @@ def _sd_equal(sd, ref, tol=1e-9):
     return None
 
 
-def run_case(case):
+def _run_case(case):
     from nflows import transforms as T
     from nflows.transforms.base import InverseNotAvailable
 
@@ -106,8 +109,9 @@ def run_case(case):
         trained_fwd, switched = False, False
         res.labels += ["kind:" + case["kind"] + (":4D" if case.get("img") else ""), "dtype:%s" % ("f64" if case.get("precise", True) else "f32")]
         for step, op in enumerate(case["ops"]):
+            torch.set_grad_enabled(True)
             k = op["op"]
-            hist.append(k + ("" if k not in ("forward", "inverse") else ("(T)" if training else "(E)")))
+            hist.append(k + ("" if k not in ("forward", "inverse") else ("(T)" if training else "(E)") + ("[no_grad]" if op.get("nograd") else "")))
             if k == "train":
                 subj.train()
                 training = True
@@ -125,6 +129,7 @@ def run_case(case):
             elif k == "deepcopy":
                 subj = copy.deepcopy(subj)
             else:
+                torch.set_grad_enabled(not op.get("nograd", False))
                 xb = _batch(case, op)
                 if case["kind"] == "actnorm" and not case.get("precise", True) and abs(op["shift"]) > 10:
                     xb = xb - op["shift"]      # float32 ActNorm output = scale*x + shift cancels catastrophically for |x|/std ~ 1e5
@@ -195,9 +200,12 @@ def run_case(case):
                             sd = subj.state_dict()
                             conv = model["conv"]
                             if conv is None:
+                                best = None
                                 for c, v in cands.items():
-                                    if float((sd["running_var"].double() - ((1 - m_) * model["running_var"] + m_ * v)).abs().max()) < (1e-9 if TOL < 1e-6 else 1e-3) * m_ * float(v.abs().max()) + 1e-12:
-                                        conv = c
+                                    dv = float((sd["running_var"].double() - ((1 - m_) * model["running_var"] + m_ * v)).abs().max())
+                                    if dv < (1e-9 if TOL < 1e-6 else 1e-3) * (m_ * float(v.abs().max()) + float(model["running_var"].abs().max())) + 1e-300 and \
+                                            (best is None or dv < best):
+                                        conv, best = c, dv      # the closer of the two (they differ by the factor n/(n-1))
                                 if conv is None:
                                     res.fail("batchnorm_running", site, "running_var after the first training forward follows neither variance convention "
                                              "under r<-(1-m)r+m*stat: %s; history %s" % (sd["running_var"].tolist(), hist))
@@ -242,3 +250,10 @@ def run_case(case):
                 if trained_fwd and switched:
                     res.nontrivial = True
     return res
+
+
+def run_case(case):
+    try:
+        return _run_case(case)
+    finally:
+        torch.set_grad_enabled(True)
